@@ -260,7 +260,9 @@ pub fn hash_with_dxdy(nside: u32, lon: f64, lat: f64) -> (u64, f64, f64) {
   // separated by the gap between the two triangles: use the image on the side of the selected cell
   let ddy = y - yc;
   let gap = 2.0 * (y.abs() - 1.0);
-  if gap > 0.0 && ddx.abs() + ddy.abs() > (1.0 + 1e-9) / (nside as f64) { // not in the cell: look at the other image
+  // (+ 1e-14: the rounding errors on x and y, a few 1e-15, are not small with respect to 1e-9 / nside for nside > ~1e6; a
+  // position on the border of the cell must not be sent to the other image, which is then not even an image of the position)
+  if gap > 0.0 && ddx.abs() + ddy.abs() > (1.0 + 1e-9) / (nside as f64) + 1e-14 { // not in the cell: look at the other image
     if (ddx - gap).abs() < ddx.abs() { ddx -= gap; } else if (ddx + gap).abs() < ddx.abs() { ddx += gap; }
   }
   let half_nside = 0.5 * (nside as f64);
